@@ -4,6 +4,9 @@ import os
 import sys
 
 
+ID_POOL = [None, 0, '', b'', (0,), 'a\x00', b'\x00', -1, 1.5, frozenset(), ('x', None), 7, 'id', b'id', (1, 2), 2.5]
+
+
 def main():
   job = json.load(sys.stdin)
   os.environ['XLA_FLAGS'] = '--xla_force_host_platform_device_count=%d' % job['devices']
@@ -40,10 +43,12 @@ def main():
         mk = jnp.array if case.get('jax_inputs', True) else np.array
         shared = {'base': mk(np.float32(1000.)), 'k': mk(np.int32(7))}
         clients = []
+        # client ids are opaque to the backends: every second case uses ids of other types (None, 0, empty str / bytes, tuples ...)
+        odd = case.get('odd_ids')
         for c, n in enumerate(nb, start=1):
           ci = {'cid': mk(np.int32(c)), 'bias': mk(np.float32(c * 0.5))}
           batches = [{'tok': mk(np.int32(c * 16 + jj)), 'v': mk(np.array([c, jj], np.float32)), 'd': mk(np.float32(1.0))} for jj in range(1, n + 1)]
-          clients.append((c, batches, ci))
+          clients.append((ID_POOL[c - 1] if odd else c, batches, ci))
         order = case.get('order') or list(range(len(clients)))
         listed = [clients[i] for i in order]
         fn = None
@@ -79,6 +84,9 @@ def main():
               cnt = int(o['cnt'])
               seq = [int(x) for x in np.asarray(o['seq'])[:cnt]]
               finite = bool(np.all(np.isfinite(np.asarray(o['vec']))))
+              if case.get('odd_ids'):
+                where = [i for i, x in enumerate(ID_POOL) if type(x) is type(cid) and x == cid]
+                cid = where[0] + 1 if where else -1
               y = {'id': int(cid), 'seq': seq, 'cnt': cnt, 'vec': [float(x) for x in np.asarray(o['vec'])], 'flag': bool(o['flag']),
                    'h': int(o['h']), 'k': int(o['k']), 'finite': finite}
               if res is not None:
